@@ -1244,6 +1244,7 @@ package gorums
 //@     invariant forall(k, 0, len(o.add), at(T, "*RawNode", len(o.old) + k) == old(o.add[k]))
 //@     invariant forall(k, len(o.old), len(T), at(T, "*RawNode", k) == old(o.add[k - len(o.old)]))
 //@     invariant[C14.d] forall(k, 0, len(o.old), o.old[k] == old(o.old[k])) && forall(k, 0, len(o.add), o.add[k] == old(o.add[k]))
+//@     invariant[C14.d] forall(k, len(o.old), cap(o.old), o.old[k] == old(o.old[k]))
 //@     invariant m != nil && forall(id, in(id, m) ==> m[id])
 //@     invariant forall(id, in(id, m) ==> 0 <= pos[id] && pos[id] < len(nodes) && nodes[pos[id]].id == id)
 //@     invariant forall(i, 0, len(nodes), nodes[i] != nil)
@@ -1254,6 +1255,7 @@ package gorums
 //@   on call "mgr.sortNodes"
 //@     after assert forall(i, 0, len(nodes), nodes[i] != nil)
 //@     after assert forall(k, 0, len(o.old), o.old[k] == old(o.old[k])) && forall(k, 0, len(o.add), o.add[k] == old(o.add[k]))
+//@     after assert[C14.d] forall(k, len(o.old), cap(o.old), o.old[k] == old(o.old[k]))
 //@     after assert[C14.b] forall(i, 0, len(nodes), src[i] < len(o.old) ? nodes[i] == o.old[src[i]] : (src[i] - len(o.old) < len(o.add) && nodes[i] == o.add[src[i] - len(o.old)]))
 //@     after assert[C14.b] forall(i, 0, len(nodes), exists(k, 0, len(o.old), nodes[i] == old(o.old[k])) || exists(k, 0, len(o.add), nodes[i] == old(o.add[k])))
 //@     after assert[C14.b] forall(k, 0, len(o.old), in(old(o.old[k]).id, m))
@@ -1271,6 +1273,7 @@ package gorums
 //@   ensures[C14.e] err == nil && len(nodes) > 0
 //@   ensures[C14.a] forall(i, 0, len(nodes), nodes[i] != nil) && forall(i, 0, len(nodes), forall(j, 0, len(nodes), i < j ==> nodes[i].id < nodes[j].id))
 //@   ensures[C14.d] forall(k, 0, len(o.old), o.old[k] == old(o.old[k])) && forall(k, 0, len(o.add), o.add[k] == old(o.add[k]))
+//@   ensures[C14.d] forall(k, len(o.old), cap(o.old), o.old[k] == old(o.old[k]))
 // (C14.b: "nodes are exactly the operands' nodes, each id once" is proved for the list handed
 // to the final sort - the assertions after mgr.sortNodes above; the final sort permutes
 // that list (trusted sort.Sort contract), which the sortedness proof below relies on too.)
